@@ -13,7 +13,10 @@ import (
 // Harness vocabulary: functions named v* defined in the overlay with trivial native bodies.
 
 func (m *Machine) strArg(v Value, fn *ssa.Function, it *Item, idx int) string {
-	// string arguments of vocabulary calls must be constants: recover from the call instruction
+	// string arguments of vocabulary calls must have concrete content (constants and their concatenations)
+	if t, ok := v.(Text); ok && t.Lit != nil {
+		return *t.Lit
+	}
 	f := it.F
 	ins := f.fi.Fn.Blocks[f.block].Instrs[f.pc]
 	var cc *ssa.CallCommon
@@ -31,17 +34,15 @@ func (m *Machine) strArg(v Value, fn *ssa.Function, it *Item, idx int) string {
 }
 
 func (m *Machine) input(name string, s sym.Sort, typ string) T {
-	// the same name may be requested several times (loops): make unique
-	n := name
+	// the same name always denotes the same value (as in native replay, where values come from vModel[name])
 	if m.inputNames == nil {
 		m.inputNames = map[string]int{}
 	}
-	if k := m.inputNames[name]; k > 0 {
-		n = fmt.Sprintf("%s#%d", name, k)
+	v := m.C.Var(name, s)
+	if m.inputNames[name] == 0 {
+		m.Inputs = append(m.Inputs, InputVar{Name: name, Term: v, Type: typ})
 	}
 	m.inputNames[name]++
-	v := m.C.Var(n, s)
-	m.Inputs = append(m.Inputs, InputVar{Name: n, Term: v, Type: typ})
 	return v
 }
 
@@ -81,7 +82,7 @@ func (m *Machine) vocab(name string) (Intrinsic, bool) {
 			id := m.input(nm+".id", m.intSort(), "Int")
 			z := m.IntC(0)
 			m.Assume(c.And(m.sle(z, w), m.sle(z, n), m.sle(w, m.IntC(1<<16)), m.sle(n, m.IntC(1<<20)), c.Implies(c.Eq(n, z), c.Eq(w, z)), m.sle(m.IntC(1<<41), id)), "text input "+nm)
-			m.finishInline(it, rr, Text{w, n, z, z, id})
+			m.finishInline(it, rr, Text{W: w, N: n, NL: z, CUU: z, ID: id})
 			return false
 		}, true
 	case "vMakeText":
@@ -89,7 +90,7 @@ func (m *Machine) vocab(name string) (Intrinsic, bool) {
 		return func(m *Machine, wl *worklist, it *Item, fn *ssa.Function, args []Value, rr int) bool {
 			w, nl := args[0].(T), args[1].(T)
 			n := m.add(w, nl)
-			m.finishInline(it, rr, Text{w, n, nl, m.IntC(0), c.UF("mk", m.intSort(), w, nl)})
+			m.finishInline(it, rr, Text{W: w, N: n, NL: nl, CUU: m.IntC(0), ID: c.UF("mk", m.intSort(), w, nl)})
 			return false
 		}, true
 	case "vTextWidth", "vTextLen", "vTextNL", "vTextCUU", "vTextID":
